@@ -1740,9 +1740,15 @@ func (db *DatabaseCollectionWithUser) PutExistingRevWithConflictResolution(ctx c
 	allowImport := true
 	updateRevCache := true
 	originalNewDocAtts := maps.Clone(newDoc.Attachments())
+	// Conflict resolution rewrites the incoming revision in place (rev ID, deleted flag, body and history). Keep the values
+	// that were received so that a CAS retry resolves against the incoming revision and not against an earlier attempt's result.
+	incomingRevID, incomingDeleted, incomingBody, incomingRawBody := newDoc.RevID, newDoc.Deleted, newDoc._body, newDoc._rawBody
 	doc, _, err = db.updateAndReturnDoc(ctx, newDoc.ID, allowImport, &newDoc.DocExpiry, nil, opts.DocUpdateEvent, opts.ExistingDoc, false, updateRevCache, func(doc *Document) (resultDoc *Document, resultAttachmentData updatedAttachments, createNewRevIDSkipped bool, updatedExpiry *uint32, resultErr error) {
 		// (Be careful: this block can be invoked multiple times if there are races!)
 		newDoc.SetAttachments(maps.Clone(originalNewDocAtts))
+		newDoc.RevID, newDoc.Deleted, newDoc._body, newDoc._rawBody = incomingRevID, incomingDeleted, incomingBody, incomingRawBody
+		docHistory = opts.RevTreeHistory
+		newRev = docHistory[0]
 
 		var isSgWrite bool
 		var crc32Match bool
